@@ -87,3 +87,27 @@ Definition ival (r : irat) : ext * ext := (val (irat_rat r), val (irat_inf r)).
 Definition lex_lt (a b : ext * ext) : Prop := ext_lt (fst a) (fst b) \/ (ext_eq (fst a) (fst b) /\ ext_lt (snd a) (snd b)).
 Definition lex_eq (a b : ext * ext) : Prop := ext_eq (fst a) (fst b) /\ ext_eq (snd a) (snd b).
 Definition lex_le (a b : ext * ext) : Prop := lex_lt a b \/ lex_eq a b.
+
+(* n/d as a Q for d > 0 (val r = Fin (Qof (rat_num r) (rat_den r)) on finite r, by unfolding) *)
+Definition Qof (n d : Z) : Q := Qmake n (Z.to_pos d).
+
+(* the exact value of a finite rational as a Q (0 < den); meaningless on +-inf *)
+Definition qval (r : rat) : Q := Qof (rat_num r) (rat_den r).
+Definition finite (r : rat) : Prop := 0 < rat_den r /\ Z.gcd (rat_num r) (rat_den r) = 1.
+
+(* component-wise operations on infinitesimal-extended values (r, i) standing for r + i*eps *)
+Definition opt2 (a b : option ext) : option (ext * ext) :=
+  match a, b with Some x, Some y => Some (x, y) | _, _ => None end.
+Definition iext_add (a b : ext * ext) := opt2 (ext_add (fst a) (fst b)) (ext_add (snd a) (snd b)).
+Definition iext_sub (a b : ext * ext) := opt2 (ext_sub (fst a) (fst b)) (ext_sub (snd a) (snd b)).
+Definition iext_opp (a : ext * ext) : ext * ext := (ext_opp (fst a), ext_opp (snd a)).
+Definition iext_scale (a : ext * ext) (k : ext) := opt2 (ext_mul (fst a) k) (ext_mul (snd a) k).
+Definition iext_lscale (k : ext) (a : ext * ext) := opt2 (ext_mul k (fst a)) (ext_mul k (snd a)).
+Definition iext_divs (a : ext * ext) (k : ext) := opt2 (ext_div (fst a) k) (ext_div (snd a) k).
+(* a scalar embedded: k + 0*eps *)
+Definition iext_of (k : ext) : ext * ext := (k, Fin 0).
+(* first-order quotient k / (r + i eps) = k/r - (k*i / r^2) eps *)
+Definition obind (a : option ext) (f : ext -> option ext) : option ext := match a with Some x => f x | None => None end.
+Definition iext_ldiv (k : ext) (a : ext * ext) : option (ext * ext) :=
+  opt2 (ext_div k (fst a))
+       (obind (ext_mul k (snd a)) (fun ki => obind (ext_mul (fst a) (fst a)) (fun r2 => ext_div (ext_opp ki) r2))).
